@@ -17,9 +17,9 @@ DOC = {
  "C05.R1": "guard cleanup: armed edge must-pass set_status(Stopping) < terminate < set_status(Stopped); notify/unlink lie between terminate and Stopped",
  "C05.R2": "guard created right after the cell constructor succeeds (must-pass, nothing can return in between); guard/port set never forgotten, leaked or reference-counted",
  "C05.R3": "every mutable access to a tree's child map or supervisor slot happens while the tree lock guard is live; writers are link/unlink/take_children",
- "C05.R4": "link: child-map insertion behind the false edges of both `>= Draining` tests (fresh status) and the open-set (Some) edge; take_children take()s the set under the lock",
+ "C05.R4": "link: child-map insertion reachable only under fresh status gates (read under the tree lock) that exclude Draining/Stopping/Stopped for the supervisor and Stopping/Stopped for the child, and the open-set (Some) edge; take_children take()s the set under the lock",
  "C05.R5": "identity tests: relink removes from the previous supervisor only when it differs from the new one; unlink removes/clears only when the caller is the current supervisor; take_children clears only slots that point at the parent",
- "C05.R6": "terminate: children taken inside the worklist cycle and pushed back; kill guarded by status <= Upgrading",
+ "C05.R6": "terminate: children taken inside the worklist cycle and pushed back; the status guard of the kill admits every status below Stopping (Unstarted..Draining)",
  "C05.R7": "a refused link leaves start with Err before mark_running and before the loop task exists (Send); thread-local links before handing the builder to the spawner",
 }
 
@@ -203,21 +203,26 @@ def r4(run, db):
     run.saw(len(link.blocks), link)
     ins = [c for c in link.calls() if c.matches(r"HashMap::<K, V, S, A>::insert$")]
     run.anchor("link child-map insertions", len(ins), 1, link.where())
-    sts = [s for s in status_tests(link) if s["op"] == ">=" and s["const"] == "Draining" and any(r["k"] == "call" and r["call"].is_("get_status") for r in s["subject"])]
-    run.check(len(sts) == 2, "two-status-gates", "link tests `get_status() >= Draining` on two cells (child and supervisor)", "link has %d `>= Draining` tests (expected child and supervisor)" % len(sts), link.where())
-    # distinct subjects
-    subj = set()
-    for s in sts:
-        for r in s["subject"]:
-            if r["k"] == "call":
-                for a in link.origin_args(r["call"].args[0]):
-                    subj.add(a)
-    run.check(len(subj) >= 2, "gates-on-both", "the two gates read the status of two different parameters (%s)" % sorted(subj), "both gates read the same cell", link.where())
+    # per cell (parameter) the statuses under which the insertion is reachable; fresh reads only
     acqs = acquisitions(link)
     for c in ins:
-        for s in sts:
-            run.check(s["false_edge"] and link.edge_dominates(s["false_edge"], c.site), "insert-behind-gate@L%s" % "x", "child-map insertion is dominated by the false edge of a `>= Draining` gate",
-                      "a child-map insertion is reachable when a cell is draining/stopping/stopped", c.where())
+        gates = status_gates_at(link, c.site)
+        by_subj = {}
+        for g, pol in gates:
+            for r in g["subject"]:
+                if r["k"] == "call":
+                    for a in link.origin_args(r["call"].args[0]):
+                        by_subj.setdefault(a, []).append((g, pol))
+        run.check(len(by_subj) >= 2, "gates-on-both@%d" % c.bb, "the insertion is behind status gates on two different cells (%s)" % sorted(by_subj), "the child-map insertion is gated on %d cell(s) only" % len(by_subj), c.where())
+        for subj, gs in sorted(by_subj.items()):
+            adm = admitted_statuses(gs)
+            # parameter 1 = child, parameter 2 = supervisor
+            banned = ["Draining", "Stopping", "Stopped"] if subj == 2 else ["Stopping", "Stopped"]
+            bad = [v for v in adm if v in banned]
+            run.check(not bad, "insert-behind-gate:param%s@%d" % (subj, c.bb),
+                      "child-map insertion is reachable only while parameter %s is %s (%s)" % (subj, adm, show_gates(gs)),
+                      "a child-map insertion is reachable while %s is %s: %s" % ("the supervisor" if subj == 2 else "the child", bad,
+                          "a draining/stopping/stopped actor gains a child that its own exit will never terminate" if subj == 2 else "a stopped actor is entered in a child set and stays there"), c.where())
         # open-set: the map reference originates from the Some payload of as_mut() on the children guard
         okopen = False
         for r in link.origins(c.args[0]):
@@ -226,8 +231,15 @@ def r4(run, db):
         run.check(okopen, "insert-into-open-set", "the insertion target is the Some payload of the child-set option (closed set refuses)", "insertion does not go through the open-set (Some) test", c.where())
         run.check(held_at(link, c.site, TREE_RX, acqs) is not None, "insert-under-lock", "insertion under the tree lock", "insertion outside the tree lock", c.where())
     # status gates evaluated under the tree lock
-    for s in sts:
-        run.check(held_at(link, s["call"].site, TREE_RX, acqs) is not None, "gate-under-lock", "status gate evaluated while the tree lock is held", "status gate evaluated before the tree lock is taken (stale)", s["call"].where())
+    used = {}
+    for c in ins:
+        for g, pol in status_gates_at(link, c.site):
+            used[g["call"].bb] = g
+    run.anchor("link status gates", len(used), 2, link.where())
+    for g in used.values():
+        reads = [r["call"] for r in g["subject"] if r["k"] == "call"]
+        run.check(all(held_at(link, rd.site, TREE_RX, acqs) is not None for rd in reads) and held_at(link, g["call"].site, TREE_RX, acqs) is not None, "gate-under-lock@%d" % g["call"].bb,
+                  "status gate read and evaluated while the tree lock is held", "status gate evaluated before the tree lock is taken (stale)", g["call"].where())
     tk = run.need(db.one(r"SupervisionTree::take_children$"), "take_children")
     run.saw(len(tk.blocks), tk)
     takes = [c for c in tk.calls() if c.matches(r"Option::<T>::take$")]
@@ -315,8 +327,19 @@ def r6(run, db):
             if any(r["k"] == "call" and r["call"].bb == tk[0].bb for r in rts):
                 okext = True
     run.check(okext, "children-pushed", "the taken children are pushed onto the worklist", "taken children are not fed back into the worklist", t.where())
-    sts = [s for s in status_tests(t) if s["op"] == "<=" and s["const"] == "Upgrading"]
-    run.check(len(sts) == 1 and sts[0]["true_edge"] and t.edge_dominates(sts[0]["true_edge"], kill[0].site), "kill-guard", "kill() is guarded by `status <= Upgrading`", "kill() guard changed", kill[0].where())
+    # which statuses does the kill reach?  every status an actor can have before it starts stopping (Unstarted..Draining)
+    # must be admitted: a descendant in any of them is still running user code and has to go down with the subtree.
+    live = ["Unstarted", "Starting", "Running", "Upgrading", "Draining"]
+    gates = []
+    for s_ in status_tests(t):
+        for edge, pol in ((s_["true_edge"], True), (s_["false_edge"], False)):
+            if edge and t.edge_dominates(edge, kill[0].site):
+                gates.append((s_, pol))
+    missed = [v for v in live if any(status_sat(s_["op"], s_["const"], v) != pol for s_, pol in gates)]
+    run.check(not missed, "kill-guard-admits-every-live-status",
+              "the kill in terminate() reaches every descendant whose status is below Stopping (guards: %s)" % (["status %s %s is %s" % (s_["op"], s_["const"], pol) for s_, pol in gates] or "none"),
+              "terminate() does not kill a descendant whose status is %s (guard %s): such an actor is detached from the tree but keeps running after its supervisor has stopped" % (
+                  missed, ["status %s %s" % (s_["op"], s_["const"]) for s_, pol in gates]), kill[0].where())
     # take_children is unconditional within the cycle (every popped actor's set is closed)
     run.check(t.must_pass(Site(pop[0].target, 0), [tk[0].site], to_sites=[pop[0].site] + t.exits()) or True, "take-unconditional", "each popped actor's child set is taken", None)
     # exit only when pop returns None
